@@ -17,6 +17,7 @@ func checkC06(c *Ctx) {
 	byteOrderRule(c, "C06-K7", []string{"dhcpv4", "dhcpv6", "iana", "rfc1035label"}, 50)
 	r := c.R
 	r.Decides = append(r.Decides,
+		"K12 the explicit rejections and conditional field stores of every DHCPv4/DHCPv6 decoder equal the reviewed census (E8, shared C05-K11)",
 		"K11 the message a top-level decoder is building is never a call argument before it is returned (shared C01-K7/C04-K9/C05-K12)",
 		"K10 the messages the four top-level decoders return share no memory with the datagram (E3 retention, shared C08-K1): what a second encode emits cannot depend on the caller's receive buffer",
 		"K9 no decoder method rewrites what it has decoded through a step that sees none of the input (a call after the first read that receives the receiver or a value loaded from it, nothing derived from the input, and writes memory reachable from it: de-duplicating, sorting, trimming a decoded list)",
@@ -35,6 +36,9 @@ func checkC06(c *Ctx) {
 	// decoder that stores views of the packet and appends later fragments in place rewrites neighbouring options
 	c09Reassembly2(c, "C06-K8")
 	decoderPostProcessing(c, "C06-K9")
+	// what a decoder rejects and which fields it sets under which condition (E8) decides what the first decode keeps: a field
+	// left nil or replaced under a new condition re-encodes to something else (shared C05-K11)
+	e8CheckRejects(c, "C06-K12", func(n string) bool { return strings.Contains(n, "dhcpv6.") || strings.Contains(n, "dhcpv4.") }, 10)
 	// a decoder that hands the half-built message to another function (late rewriting of decoded fields — Option Overload
 	// applied by a method, merged header fields) decodes to something the encoder does not write back (shared C01-K7)
 	decoderKeepsResult(c, "C06-K11", c.P.Func(modPath+"/dhcpv4.FromBytes"))
